@@ -10,7 +10,7 @@ REG = dict(
          "`is_subtype`: reflexivity, top, bottom on every type; variance congruence of every unary constructor over all 361^2 argument pairs and of every binary "
          "constructor over all 73^4 argument 4-tuples; different head or arity => unrelated; transitivity over ALL triples (361^3 quick, 16 426^3 thorough) through "
          "the relation's bit matrix. Exhaustive within the depth bound; the 'unbounded, by proof' half of the quantifier is outside this technique and not claimed.",
-    note="Use sites: 6 kinds of site (let / parameter / function return / closure return / struct field hint, early return) x 16 expressions of known static type x 12 hints are checked and run; "
+    note="Use sites: 6 kinds of site (let / parameter / function return / closure return / struct field hint, early return) x 19 expressions of known static type x 15 hints are checked and run; "
          "check must accept exactly the pairs an independent reference relation (NoValue bottom, covariant containers, contravariant parameters) calls subtypes, and the runtime hint check must accept the accepted ones. "
          "Types are built by the hook from the crate's own constructors (Type::list, Type::int, ...); Error types are excluded (the statement is about well-formed types "
          "without checker errors). Depth >2 and other signatures are not covered.",
@@ -158,9 +158,13 @@ EXPRS = [  # (source, static type)
     ("(1, [])", T("Tuple", INT, T("List", NV))), ("(1, [2])", T("Tuple", INT, T("List", INT))),
     ("fun(a: List<Int>): Int { 1 }", T("Fun", (T("List", INT),), INT)), ("fun(a: List<NoValue>): Int { 1 }", T("Fun", (T("List", NV),), INT)),
     ("fun(a: Int): Option<NoValue> { None }", T("Fun", (INT,), T("Option", NV))), ("fun(a: Int): Option<Int> { Some(a) }", T("Fun", (INT,), T("Option", INT))),
+    # function types whose only parameter is a tuple, and functions of two parameters (the two must not be confused)
+    ("fun(p: (Int, String)): Int { 1 }", T("Fun", (T("Tuple", INT, STR),), INT)), ("fun(a: Int, b: String): Int { 1 }", T("Fun", (INT, STR), INT)),
+    ("fun(): Int { 1 }", T("Fun", (), INT)),
 ]
 HINTS = [INT, STR, T("Option", INT), T("Option", STR), T("List", INT), T("List", STR), T("List", T("List", INT)), T("Tuple", INT, T("List", INT)),
-         T("Fun", (T("List", INT),), INT), T("Fun", (T("List", NV),), INT), T("Fun", (INT,), T("Option", INT)), T("Fun", (INT,), T("Option", NV))]
+         T("Fun", (T("List", INT),), INT), T("Fun", (T("List", NV),), INT), T("Fun", (INT,), T("Option", INT)), T("Fun", (INT,), T("Option", NV)),
+         T("Fun", (T("Tuple", INT, STR),), INT), T("Fun", (INT, STR), INT), T("Fun", (), INT)]
 SITES = {
     "let hint": "let x: {H} = {E}\nprintln(\"done\")\n",
     "function return hint": "fun f(): {H} {{ {E} }}\nf()\nprintln(\"done\")\n",
